@@ -560,7 +560,7 @@ PROPS["C13"] = dict(
         K("c13", "c13_piece_squares_is_a_sum_over_pieces", kind="bounded", bound="<= 3 own pieces per kind; per-piece score = one symbolic spike",
           unwindset_rules=[("evaluate_piece_squares", r"iter_ones\(\)", 4)],
           desc="evaluate_piece_squares::evaluate adds exactly evaluate_piece_square(kind, square, perspective, game-phase weight) once per own piece and "
-          "nothing else (so the term is a sum of mirror-invariant summands)", functions=["evaluate_piece_squares::evaluate"], timeout=2400),
+          "nothing else (so the term is a sum of mirror-invariant summands)", functions=["evaluate_piece_squares::evaluate"], timeout=2400, lemma=True),
         K("c13", "c13_variation_mirror", desc="StateVariation::from of the mirrored position == the colour-swapped one (counts, end-game weight); "
           "fully symbolic position", functions=["StateVariation::from"], timeout=1500),
         K("c13", "c13_piece_worths_mirror", desc="material term on position vs mirror", functions=["evaluate_piece_worths::evaluate"], timeout=1500),
